@@ -23,6 +23,7 @@ pub mod scen_batch;
 pub mod scen_codec;
 pub mod scen_core;
 pub mod scen_ctors;
+pub mod scen_recover;
 pub mod scen_transcript;
 
 use util::Out;
@@ -51,6 +52,10 @@ fn main() {
         "C17" => scen_ctors::c17(&opts, &mut out),
         "C06" => scen_ctors::c06(&opts, &mut out),
         "C04" => scen_transcript::c04(&opts, &mut out),
+        "C07" => scen_recover::c07(&opts, &mut out),
+        "C08" => scen_recover::c08(&opts, &mut out),
+        "C09" => scen_recover::c09(&opts, &mut out),
+        "C10" => scen_recover::c10(&opts, &mut out),
         other => {
             eprintln!("unknown scenario {}", other);
             std::process::exit(2);
